@@ -99,6 +99,7 @@ def schedules(rng, n, sources, plans, tier):
 
 
 def tlc_part(pid, tier, sc, rep):
+    # (properties that assume every write succeeds are not asked of the EPIPE config: see S4Run.AllPrintedAtEnd)
     """Exhaustive model checking with the channel capacity read from the code."""
     cap = common.channel_capacity()
     invs = ["AllPrintedAtEnd", "NoneUnreachable", "RetMeaning", "PendingLive", "ChanBound"]
@@ -119,10 +120,20 @@ def tlc_part(pid, tier, sc, rep):
             cfgs.append(("n2m3cap%d" % capx, c, 900))
         c = runmodel.s4run_constants(2, cap + 1, {1})
         cfgs.append(("n2full", c, 900))
+    if pid == "C06":
+        # the print-error path (closed pipe): the run must still end
+        ce = runmodel.s4run_constants(2, 2, {1, 2})
+        ce["EPIPE"] = True
+        cfgs.append(("epipe", ce, 600))
     states = trans = 0
     details = []
     for name, consts, to in cfgs:
-        r = runmodel.model_check(os.path.join(sc, "tlc"), name, consts, invs, props, workers=10, timeout=to)
+        if name == "epipe":
+            # with failing writes only termination and the channel discipline are claimed
+            r = runmodel.model_check(os.path.join(sc, "tlc"), name, consts, ["PendingLive", "ChanBound"], ["Terminates", "Exits"],
+                                     workers=10, timeout=to)
+        else:
+            r = runmodel.model_check(os.path.join(sc, "tlc"), name, consts, invs, props, workers=10, timeout=to)
         if r.violated:
             rep.violation("model:%s:%s" % (name, r.violated),
                           "S4Run.tla with constants from the build violates %s in config %s" % (r.violated, name),
@@ -246,6 +257,41 @@ def run(pid, tier, seed):
         if cur:
             batches.append(cur)
 
+        # C06: the reader of standard output goes away early (`s4 ... | head`): the run must still end promptly
+        epipe_runs = 0
+        if pid == "C06":
+            import subprocess
+            d = os.path.join(sc, "epipe")
+            os.makedirs(d)
+            names = []
+            for w in range(3):
+                blob, _ = gen.text_source(chr(65 + w), [(gen.BASE + i, 0) for i in range(4000)], frac=0, pad=60)
+                with open(os.path.join(d, "e%d.log" % w), "wb") as f:
+                    f.write(blob)
+                names.append("e%d.log" % w)
+            for take in ([0, 10, 70000] if tier == "quick" else [0, 1, 10, 4096, 65536, 70000, 300000]):
+                p = subprocess.Popen([common.S4_BIN, "-t", "+00:00", "--color", "never"] + names, cwd=d, stdout=subprocess.PIPE,
+                                     stderr=subprocess.PIPE, env={"PATH": os.environ.get("PATH", ""), "TZ": "UTC"})
+                try:
+                    if take:
+                        p.stdout.read(take)
+                    p.stdout.close()
+                    t0_ = time.time()
+                    p.wait(timeout=30)
+                    epipe_runs += 1
+                    if p.returncode not in (0, 1):
+                        rep.violation("epipe:exit-status", "exit status %s after the reader of stdout closed the pipe" % p.returncode,
+                                      {"kind": "epipe", "take": take, "stderr": p.stderr.read()[-300:].decode(errors="replace")})
+                except subprocess.TimeoutExpired:
+                    p.kill()
+                    rep.violation("epipe:hang", "run did not end within 30 s after the reader of stdout closed the pipe (read %d bytes)" % take,
+                                  {"kind": "epipe", "take": take})
+                finally:
+                    try:
+                        p.stderr.close()
+                    except Exception:
+                        pass
+
         # I->S: every trace against TraceS4Run (all S4Run invariants + PrintIsEarliest at every step)
         accepted = 0
         for bi, batch in enumerate(batches):
@@ -273,7 +319,7 @@ def run(pid, tier, seed):
             "rule": "distinct = (ground-truth instants per source, schedule) pairs; non-trivial = >= 2 sources with at "
                     "least one equal instant inside or across sources",
             "samples": samples, "tlc_configs": details, "tlc_plans_followed": plan_followed, "tlc_plans_run": plan_total,
-            "source_sets": nsets, "exhaustive": False,
+            "source_sets": nsets, "closed_pipe_runs": epipe_runs, "exhaustive": False,
             "checker_cmd": "tlc -config <generated MC cfg> S4Run.tla ; tlc -workers 1 -config <trace cfg> TraceS4Run.tla",
         }
         rep.assumptions = [
